@@ -41,6 +41,17 @@ enum Ending {
 fn body(t: &mut Tape, n: usize, st: &mut Stats) -> Vec<String> {
     let mut v = vec![];
     for i in 0..n {
+        if t.chance(1, 110) {
+            // a lot of output: some 70..300 KiB, far beyond any pipe or stdio buffer
+            let lines = 1500 + t.below(4000);
+            v.push(format!("big{} = range 0 {}", i, lines));
+            v.push(format!("for bi in ${{big{}}}", i));
+            v.push("    echo output line ${bi} with some padding to make it longer than a few bytes".to_string());
+            v.push("end".to_string());
+            v.push(format!("released = release ${{big{}}}", i));
+            st.class("script-printing-over-64-KiB");
+            continue;
+        }
         match t.weighted(&[6, 2, 2, 2, 1, 1, 1, 1]) {
             0 => {
                 let k = 1 + t.below(3);
@@ -429,7 +440,7 @@ fn case_info(t: &mut Tape, _st: &mut Stats) -> Verdict {
 pub fn property() -> Property {
     Property {
         id: "C20",
-        rule: "(run) generated deterministic scripts (echo / set / calc / if-else / for-in / functions / goto / survivable errors) ending by success, unknown command, failing assert, exit with a non-zero code (incl. 256, 512, 65536, negative), exit 0, exit with text, a malformed line (C08 kinds), or exit_on_error + error, followed by lines that must not run; each is run by the library in process (same SDK, captured output) and by the real duck binary as 'duck file' (one file case in three: the file is a symbolic link in another directory and starts with a relative !include_files, with or without a decoy of the same name next to the link target; library and tool are given the same path), 'duck -e text' or 'duck --eval text': exit status 0 iff the library run is Ok, otherwise non-zero with stdout containing 'Error: ' + the library error's Display, and the stdout before it equal to the library output; (child-output) scripts that print and in between start a child process (exec of the echo binary) writing to the inherited stdout, succeeding or ending in a failed assert: the tool's whole stdout and zero / non-zero status must equal those of the library run, which the harness performs as a process of its own ('dsverif librun') so that the child's output lands in the same captured stream; (lint) files whose labels / commands / output variables are spelled over lower-case, digits, '_', non-ASCII lower (é ß я 日) with at most one planted upper-case letter (A Z É Я Σ Q) in a label (also alone on its line), command or output, upper-case arguments and comments everywhere, optionally a malformed last line: 'duck -l|--lint file' exits 0 iff the file parses and every label, command and output is lower-case by an independent per-character predicate; (info) --version prints the three version strings, --help/-h print the usage. Non-trivial: a script that printed something and (for failures) failed after that; distinct by (script, form)",
+        rule: "(run) generated deterministic scripts (echo / set / calc / if-else / for-in / functions / goto / survivable errors; one body item in a hundred and ten prints 70..300 KiB in a loop) ending by success, unknown command, failing assert, exit with a non-zero code (incl. 256, 512, 65536, negative), exit 0, exit with text, a malformed line (C08 kinds), or exit_on_error + error, followed by lines that must not run; each is run by the library in process (same SDK, captured output) and by the real duck binary as 'duck file' (one file case in three: the file is a symbolic link in another directory and starts with a relative !include_files, with or without a decoy of the same name next to the link target; library and tool are given the same path), 'duck -e text' or 'duck --eval text': exit status 0 iff the library run is Ok, otherwise non-zero with stdout containing 'Error: ' + the library error's Display, and the stdout before it equal to the library output; (child-output) scripts that print and in between start a child process (exec of the echo binary) writing to the inherited stdout, succeeding or ending in a failed assert: the tool's whole stdout and zero / non-zero status must equal those of the library run, which the harness performs as a process of its own ('dsverif librun') so that the child's output lands in the same captured stream; (lint) files whose labels / commands / output variables are spelled over lower-case, digits, '_', non-ASCII lower (é ß я 日) with at most one planted upper-case letter (A Z É Я Σ Q) in a label (also alone on its line), command or output, upper-case arguments and comments everywhere, optionally a malformed last line: 'duck -l|--lint file' exits 0 iff the file parses and every label, command and output is lower-case by an independent per-character predicate; (info) --version prints the three version strings, --help/-h print the usage. Non-trivial: a script that printed something and (for failures) failed after that; distinct by (script, form)",
         assumptions: &[
             "the duck binary is built from /repo's working tree by check.sh (cargo build -p duckscript_cli, hooks off)",
             "REPL mode (no arguments) and title-case letters are not generated",
@@ -442,7 +453,7 @@ pub fn property() -> Property {
                     Tier::Thorough => Plan::Random { cases: 400_000, max_len: 300 },
                 },
                 case: case_run,
-                min_classes: &[("ending-ExitNonZero", 200), ("ending-ParseError", 100), ("ending-FatalError", 200), ("form-file", 800), ("form-eval", 800), ("script-reached-through-a-symlink-with-relative-include", 200)],
+                min_classes: &[("ending-ExitNonZero", 200), ("ending-ParseError", 100), ("ending-FatalError", 200), ("form-file", 800), ("form-eval", 800), ("script-reached-through-a-symlink-with-relative-include", 200), ("script-printing-over-64-KiB", 200)],
             },
             Section {
                 name: "child-output",
